@@ -18,25 +18,10 @@ pub open spec fn map_repr<R: Round, const B: Word>(r: Rounded<FBig<R, B>>) -> Ro
 pub open spec fn rd_val<T>(r: Rounded<T>) -> T { match r { Approximation::Exact(v) => v, Approximation::Inexact(v, _) => v } }
 
 // ---- TRUSTED stubs (float/src/utils.rs, float/src/repr.rs); each contract was read off the real function
-/// utils::shl_digits: "Left shifting in given radix, i.e. multiply by a power of radix"
-#[verifier::external_body]
-pub fn shl_digits<const B: Word>(value: &IBig, exp: usize) -> (r: IBig)
-    requires B >= 2,
-        // resource limit: exponent overflow is a documented panic (C16), not modelled: power-of-two bases shift by
-        // `exp * log2(B)` computed in usize (utils.rs:31); a wrapped product gives a wrong value in release builds
-        pos_room(exp as int),
-    ensures r.v() == value.v() * ipow(B as int, exp as nat)
-{ unimplemented!() }
-/// utils::shr_digits: "Right shifting in given radix, i.e. divide by a power of radix"; the MAGNITUDE is shifted
-/// (shr_ref) resp. IBig `/` is used, both truncate towards zero
-#[verifier::external_body]
-pub fn shr_digits<const B: Word>(value: &IBig, exp: usize) -> (r: IBig)
-    requires B >= 2,
-        // resource limit: exponent overflow is a documented panic (C16), not modelled: `exp * log2(B)` in usize
-        // (utils.rs:72): `shr_digits::<16>(&0x123.into(), 1 << 62)` panics (debug) or returns 0x123 (release)
-        pos_room(exp as int),
-    ensures exists|lo: int| #[trigger] is_trunc_divrem(value.v(), ipow(B as int, exp as nat), r.v(), lo)
-{ unimplemented!() }
+// utils::shl_digits: PROVED in unit float_digit_utils; contract from its annotated copy
+//@@ SIG float/utils3/shl_digits.rs
+// utils::shr_digits: PROVED in unit float_digit_utils (quotient truncated toward zero in every base arm)
+//@@ SIG float/utils3/shr_digits.rs
 impl<const B: Word> Repr<B> {
     /// repr.rs `Repr::smaller_than_one`: "Quickly test if |self| < 1. It's not always correct, but there are guaranteed
     /// to be no false positives" (decided from `digits_ub`, an f32 log2 estimate).  ASSUMED enclosure: a `true`
